@@ -91,14 +91,14 @@ def work(item):
 
 def run(ctx):
     quick = ctx.tier == "quick"
-    bases = cidgrammar.base_cids(40 if quick else 400)
+    bases = cidgrammar.base_cids(160 if quick else 800)
     names = sorted({d[0] for base in bases[:60] for d in cidgrammar.defects(base)})
     ctx.bound = {"base CIDs": len(bases), "defect catalogue": names, "rewrites": "comment rows at every position (4 kinds), trailing cells, marker / property / format name case, blanks around marker and field name, "
-                 "underscores in property names, permuted property rows, property rows after fields; singly" + (" and in pairs" if not quick else " (pairs for the first 10 bases)")}
+                 "underscores in property names, permuted property rows, property rows after fields; singly" + (" and in pairs" if not quick else " (pairs for the first 40 bases)")}
     ctx.rule = ("CIDs are rendered from structures; rewrites must load to the same (format settings, fields, checks) snapshot as their base; every defect is applied at every applicable row and must raise an "
                 "InterfaceError whose first location names that row; non-trivial = defect case; states = distinct loaded definitions")
     ctx.assumptions = ["for the two completeness defects (no format, no fields) only the exception type is judged",
                        "grey zones not enumerated: padded property names / values / check types, case-changed type names, trailing comma in IsUnique rules, empty DateTime layout"]
     chunks = engine.chunks(bases, 2)
-    items = [(chunk, (not quick) or index < 5) for index, chunk in enumerate(chunks)]
+    items = [(chunk, (not quick) or index < 20) for index, chunk in enumerate(chunks)]
     ctx.pmap(MOD, "work", items, label="C09")
